@@ -3,6 +3,9 @@ import NurbsVerif.Lemmas.MeshEdges
 import NurbsVerif.Lemmas.MeshTiling
 import NurbsVerif.Lemmas.MeshTilingQuad
 import NurbsVerif.Lemmas.MeshSurface
+import NurbsVerif.Lemmas.TrimMeshWithin
+import NurbsVerif.Lemmas.TrimMeshWhole
+import NurbsVerif.Lemmas.TrimMeshBox
 
 /-!
 # C15  Tessellation is a valid triangulation lying on the surface
@@ -17,7 +20,8 @@ Conventions: vertex `k` of `makeTriangleMesh su sv s` (position `k` of its `uv` 
 with id `k`; `nu = gridCount su s`, `nv = gridCount sv s` are the numbers of grid lines; the vertex on grid
 lines `(i, j)` has id `gridVid nv i j = j + i·nv`.  `K` is any linearly ordered field.
 
-NOT covered here (see PARTIAL in harness/props/c15.py): trimmed tessellation.
+Trimmed tessellation (`surface_trim_tessellate` and the cell loop of `make_triangle_mesh` that calls it) is modelled in
+`Model/TrimMesh.lean` (`trimCell`, `trimCells`, `makeTrimMesh`); its theorems are in the last section.
 -/
 namespace C15
 open Geomdl Geomdl.Mesh
@@ -368,5 +372,340 @@ example : inFaceInterior (meshUV (K := ℚ) 7 4 3) [0, 3, 1] (1/8, 3/4) ∧
 /-- and the model's mesh there is the expected one -/
 example : (makeTriangleMesh (K := ℚ) 7 4 3).faces = [[0, 2, 3], [0, 3, 1], [2, 4, 5], [2, 5, 3]] ∧
     (makeTriangleMesh (K := ℚ) 7 4 3).src = [0, 3, 12, 15, 24, 27] := by decide
+
+/-! ### trimmed tessellation (`surface_trim_tessellate`, `tessellate.TrimTessellate`)
+
+`trimCell tt sq trims v1 v2 v3 v4 vidx tidx` is one call of `surface_trim_tessellate` (`Model/TrimMesh.lean`), `trimCells`
+the cell loop of `make_triangle_mesh` with it, `makeTrimMesh` the mesh after `fix_numbering`.  `tt` holds the doubles of
+the routine (`tol`, `tol²`, `1.0 + tol`, the tolerance of `ray.intersect`), `sq` the rounded square root used inside
+`ray.intersect`; the theorems hold for every `tt` and `sq` unless a hypothesis says otherwise.  A trim is its closed
+polyline `pts` (`trim.evalpts`) and the flag `reversed`.  `cornerFlags tt trims k v` are the flags of corner `k` after the
+corner loop, `InSomeTrim trims p` says `wn_poly(p, trim.evalpts)` is true for some trim, `NearInside tols trims uv` that
+one of the four offset points `uv ± (tol², tol²)` of a grid vertex is in some trim. -/
+section trimmed
+open Geomdl.Trim
+
+/-- (i) **A cell whose four corners are all classified inside is omitted entirely**: no vertex, no triangle (the flags
+    the corner loop wrote stay on the corner vertices). -/
+theorem trim_cell_all_inside_omitted (tt : TrimTol K) (sq : K → K) (trims : List (Trim K)) (v1 v2 v3 v4 : TVertex K)
+    (vidx tidx : ℕ)
+    (h1 : (cornerFlags tt trims 0 v1).inside = true) (h2 : (cornerFlags tt trims 1 v2).inside = true)
+    (h3 : (cornerFlags tt trims 2 v3).inside = true) (h4 : (cornerFlags tt trims 3 v4).inside = true) :
+    (trimCell tt sq trims v1 v2 v3 v4 vidx tidx).verts = [] ∧ (trimCell tt sq trims v1 v2 v3 v4 vidx tidx).tris = [] ∧
+    (trimCell tt sq trims v1 v2 v3 v4 vidx tidx).flags
+      = [cornerFlags tt trims 0 v1, cornerFlags tt trims 1 v2, cornerFlags tt trims 2 v3, cornerFlags tt trims 3 v4] :=
+  ⟨(trimCell_of_allInside tt sq trims v1 v2 v3 v4 vidx tidx (by simp [allInside, h1, h2, h3, h4])).1,
+   (trimCell_of_allInside tt sq trims v1 v2 v3 v4 vidx tidx (by simp [allInside, h1, h2, h3, h4])).2,
+   trimCell_flags tt sq trims v1 v2 v3 v4 vidx tidx⟩
+
+/-- With only non-reversed trims (the default sense), a corner is classified inside iff it already carried the flag
+    (from a neighbouring cell) or its offset point for this cell lies in some trim; a fresh triangle iff its centre
+    lies in some trim. -/
+theorem trim_classification_nonreversed (tt : TrimTol K) (trims : List (Trim K)) (hnr : ∀ tr ∈ trims, tr.reversed = false)
+    (k : ℕ) (v : TVertex K) (ctr : K × K) :
+    (cornerFlags tt trims k v).inside
+      = (v.fl.inside || trims.any fun tr => wnPoly (cornerPoint tt.tols k v.uv false) tr.pts) ∧
+    (classifyTri trims ctr).inside = trims.any fun tr => wnPoly ctr tr.pts :=
+  ⟨cornerFlags_nonreversed tt trims hnr k v, classifyTri_nonreversed trims hnr ctr⟩
+
+/-- (ii) **Away from the trims the trimmed and the untrimmed tessellation agree.**  A cell none of whose corners is
+    classified inside and whose two candidate triangle centres are not classified inside returns its four corners
+    (own ids, own parameters, no new vertex) and exactly the two triangles of the untrimmed tessellation:
+    `polygon_triangulate(v1, v2, v3, v4)`, ids `tidx`, `tidx + 1`. -/
+theorem trim_cell_away_is_untrimmed (tt : TrimTol K) (sq : K → K) (trims : List (Trim K)) (v1 v2 v3 v4 : TVertex K)
+    (vidx tidx : ℕ)
+    (h1 : (cornerFlags tt trims 0 v1).inside = false) (h2 : (cornerFlags tt trims 1 v2).inside = false)
+    (h3 : (cornerFlags tt trims 2 v3).inside = false) (h4 : (cornerFlags tt trims 3 v4).inside = false)
+    (hc1 : (classifyTri trims (triCenterUV v1.uv v2.uv v3.uv)).inside = false)
+    (hc2 : (classifyTri trims (triCenterUV v1.uv v3.uv v4.uv)).inside = false) :
+    (trimCell tt sq trims v1 v2 v3 v4 vidx tidx).verts = [(v1.id, v1.uv), (v2.id, v2.uv), (v3.id, v3.uv), (v4.id, v4.uv)] ∧
+    (trimCell tt sq trims v1 v2 v3 v4 vidx tidx).tris = [(tidx, [v1.id, v2.id, v3.id]), (tidx + 1, [v1.id, v3.id, v4.id])] ∧
+    (trimCell tt sq trims v1 v2 v3 v4 vidx tidx).tris.map (·.2) = polygonTriangulate [v1.id, v2.id, v3.id, v4.id] := by
+  obtain ⟨e1, e2⟩ := trimCell_outside tt sq trims v1 v2 v3 v4 vidx tidx h1 h2 h3 h4 hc1 hc2
+  exact ⟨e1, e2, by rw [e2]; rfl⟩
+
+/-- (iii, triangles) **Every emitted triangle has its centre outside every non-reversed trim** (by `wn_poly`); it is a
+    fan triangle `(p, q, r)` of the returned vertex list (`p` its first entry), references exactly the ids of these
+    returned vertices, and its id lies in `tidx … tidx + len(vertices) - 3`. -/
+theorem trim_cell_triangles (tt : TrimTol K) (sq : K → K) (trims : List (Trim K)) (v1 v2 v3 v4 : TVertex K)
+    (vidx tidx tid : ℕ) (t : List ℕ) (h : (tid, t) ∈ (trimCell tt sq trims v1 v2 v3 v4 vidx tidx).tris) :
+    ∃ p q r, p ∈ (trimCell tt sq trims v1 v2 v3 v4 vidx tidx).verts ∧ q ∈ (trimCell tt sq trims v1 v2 v3 v4 vidx tidx).verts ∧
+      r ∈ (trimCell tt sq trims v1 v2 v3 v4 vidx tidx).verts ∧
+      (trimCell tt sq trims v1 v2 v3 v4 vidx tidx).verts.head? = some p ∧ t = [p.1, q.1, r.1] ∧
+      tidx ≤ tid ∧ tid + 2 < tidx + (trimCell tt sq trims v1 v2 v3 v4 vidx tidx).verts.length ∧
+      (classifyTri trims (triCenterUV p.2 q.2 r.2)).inside = false ∧
+      ∀ tr ∈ trims, tr.reversed = false → wnPoly (triCenterUV p.2 q.2 r.2) tr.pts = false :=
+  trimCell_triangles tt sq trims v1 v2 v3 v4 vidx tidx tid t h
+
+/-- (iii, vertices) Every returned vertex is either a corner that is not classified inside, with its own id and
+    parameters, or a NEW vertex with id `vidx + k`, `k < nvi ≤ 4`, whose parameters are the snapped point `a + t·(b - a)`
+    of one of the four cell edges `a → b` (`v1→v2, v2→v3, v3→v4, v4→v1`) at a parameter `t ∈ (0.0 - tol, 1.0 + tol)`:
+    for `tol ≥ 0` within `tol` per coordinate of that edge point (snapping only moves a coordinate onto 0 or 1).
+    Hence every vertex id referenced by an emitted triangle (`trim_cell_triangles`) is a corner id or one of
+    `vidx … vidx + nvi - 1`. -/
+theorem trim_cell_vertices (tt : TrimTol K) (htol : 0 ≤ tt.tol) (sq : K → K) (trims : List (Trim K))
+    (v1 v2 v3 v4 : TVertex K) (vidx tidx : ℕ) :
+    ∀ e ∈ (trimCell tt sq trims v1 v2 v3 v4 vidx tidx).verts,
+      (∃ w ∈ cellCorners tt trims v1 v2 v3 v4, w.fl.inside = false ∧ e = (w.id, w.uv)) ∨
+      (∃ k, k < (cellPoly tt sq trims v1 v2 v3 v4 vidx).nvi ∧ (cellPoly tt sq trims v1 v2 v3 v4 vidx).nvi ≤ 4 ∧
+        e.1 = vidx + k ∧
+        ∃ n a b t, (n, a, b) ∈ cellEdges v1.uv v2.uv v3.uv v4.uv ∧ 0 - tt.tol < t ∧ t < tt.hi ∧
+          |e.2.1 - (rayEval2 a b t).1| ≤ tt.tol ∧ |e.2.2 - (rayEval2 a b t).2| ≤ tt.tol) := by
+  intro e he
+  obtain ⟨hn, _, hv⟩ := trimCell_vertices tt sq trims v1 v2 v3 v4 vidx tidx
+  rcases hv e he with h | ⟨k, hk, hid, is, his, huv⟩
+  · exact Or.inl h
+  · obtain ⟨a, b, t, hm, h1, h2, h3, h4⟩ := isHit_snap_close tt htol _ _ _ _ is his
+    exact Or.inr ⟨k, hk, hn, hid, is.1, a, b, t, hm, h1, h2, by rw [huv]; exact h3, by rw [huv]; exact h4⟩
+
+/-- (iii, counts) A call returns at most 8 vertices, of which at most 4 are new, and at most `len(vertices) - 2`
+    triangles. -/
+theorem trim_cell_counts (tt : TrimTol K) (sq : K → K) (trims : List (Trim K)) (v1 v2 v3 v4 : TVertex K) (vidx tidx : ℕ) :
+    (trimCell tt sq trims v1 v2 v3 v4 vidx tidx).verts.length ≤ 8 ∧
+    (cellPoly tt sq trims v1 v2 v3 v4 vidx).nvi ≤ 4 ∧
+    (trimCell tt sq trims v1 v2 v3 v4 vidx tidx).tris.length ≤ (trimCell tt sq trims v1 v2 v3 v4 vidx tidx).verts.length - 2 :=
+  ⟨(trimCell_vertices tt sq trims v1 v2 v3 v4 vidx tidx).2.1, (trimCell_vertices tt sq trims v1 v2 v3 v4 vidx tidx).1,
+   trimCell_tris_length tt sq trims v1 v2 v3 v4 vidx tidx⟩
+
+/-- The intersection chosen on an edge is one of the recorded intersections and has the minimal parameter among them
+    (`uv_min = []` is never read: every recorded parameter is `< 1.0 + tol`). -/
+theorem trim_selected_intersection_minimal (hi : K) (l : List (ℕ × K × (K × K))) (hne : l ≠ [])
+    (hlt : ∀ is ∈ l, is.2.1 < hi) :
+    (∃ is ∈ l, selMin hi l = (is.2.1, is.2.2)) ∧ ∀ is ∈ l, (selMin hi l).1 ≤ is.2.1 :=
+  ⟨selMin_mem hi l hne hlt, selMin_le hi l⟩
+
+/-- The cell loop: one call per grid cell, in loop order; the triangles and the appended vertices are the
+    concatenation of the per-call results, and the numbering handed to the next call continues
+    (`vrt_idx = #grid vertices + #appended`, `tri_idx = #triangles`). -/
+theorem trim_loop_bookkeeping (tt : TrimTol K) (sq : K → K) (trims : List (Trim K)) (uvs : List (K × K)) (nu nv : ℕ) :
+    (trimCells tt sq trims uvs nu nv).trace.length = (nu - 1) * (nv - 1) ∧
+    (trimCells tt sq trims uvs nu nv).tris = (trimCells tt sq trims uvs nu nv).trace.flatMap (·.tris) ∧
+    (trimCells tt sq trims uvs nu nv).extra = (trimCells tt sq trims uvs nu nv).trace.flatMap (·.verts) ∧
+    (trimCells tt sq trims uvs nu nv).vidx = uvs.length + (trimCells tt sq trims uvs nu nv).extra.length ∧
+    (trimCells tt sq trims uvs nu nv).tidx = (trimCells tt sq trims uvs nu nv).tris.length :=
+  ⟨trimCells_trace_length tt sq trims uvs nu nv, (trimCells_booked tt sq trims uvs nu nv).1,
+   (trimCells_booked tt sq trims uvs nu nv).2.1, (trimCells_booked tt sq trims uvs nu nv).2.2.1,
+   (trimCells_booked tt sq trims uvs nu nv).2.2.2⟩
+
+/-- (i) on the grid (non-reversed trims): a cell each of whose four corners has the offset point THIS cell tests inside
+    some trim is omitted, whatever happened in the cells before. -/
+theorem trim_grid_cell_omitted (tt : TrimTol K) (sq : K → K) (trims : List (Trim K)) (hnr : ∀ tr ∈ trims, tr.reversed = false)
+    (uvs : List (K × K)) (nu nv i j : ℕ) (hi : i < nu - 1) (hj : j < nv - 1)
+    (h1 : InSomeTrim trims (cornerPoint tt.tols 0 (uvs.getD (j + i * nv) (0, 0)) false))
+    (h2 : InSomeTrim trims (cornerPoint tt.tols 1 (uvs.getD (j + (i + 1) * nv) (0, 0)) false))
+    (h3 : InSomeTrim trims (cornerPoint tt.tols 2 (uvs.getD (j + 1 + (i + 1) * nv) (0, 0)) false))
+    (h4 : InSomeTrim trims (cornerPoint tt.tols 3 (uvs.getD (j + 1 + i * nv) (0, 0)) false)) :
+    ∃ r, (trimCells tt sq trims uvs nu nv).trace[j + i * (nv - 1)]? = some r ∧ r.verts = [] ∧ r.tris = [] :=
+  trimCells_cell_omitted tt sq trims hnr uvs nu nv i j hi hj h1 h2 h3 h4
+
+/-- (ii) on the grid (non-reversed trims): a cell none of whose corners has ANY of its four offset points in a trim (so
+    that no neighbouring cell can have flagged it either) and whose two triangle centres lie in no trim is emitted as
+    exactly the two triangles of the untrimmed tessellation of that cell, on the grid's own vertex ids. -/
+theorem trim_grid_cell_untrimmed (tt : TrimTol K) (sq : K → K) (trims : List (Trim K)) (hnr : ∀ tr ∈ trims, tr.reversed = false)
+    (uvs : List (K × K)) (nu nv i j : ℕ) (hi : i < nu - 1) (hj : j < nv - 1)
+    (h1 : ¬ NearInside tt.tols trims (uvs.getD (j + i * nv) (0, 0)))
+    (h2 : ¬ NearInside tt.tols trims (uvs.getD (j + (i + 1) * nv) (0, 0)))
+    (h3 : ¬ NearInside tt.tols trims (uvs.getD (j + 1 + (i + 1) * nv) (0, 0)))
+    (h4 : ¬ NearInside tt.tols trims (uvs.getD (j + 1 + i * nv) (0, 0)))
+    (hc1 : ¬ InSomeTrim trims (triCenterUV (uvs.getD (j + i * nv) (0, 0)) (uvs.getD (j + (i + 1) * nv) (0, 0))
+      (uvs.getD (j + 1 + (i + 1) * nv) (0, 0))))
+    (hc2 : ¬ InSomeTrim trims (triCenterUV (uvs.getD (j + i * nv) (0, 0)) (uvs.getD (j + 1 + (i + 1) * nv) (0, 0))
+      (uvs.getD (j + 1 + i * nv) (0, 0)))) :
+    ∃ r, (trimCells tt sq trims uvs nu nv).trace[j + i * (nv - 1)]? = some r ∧
+      r.verts = [(j + i * nv, uvs.getD (j + i * nv) (0, 0)), (j + (i + 1) * nv, uvs.getD (j + (i + 1) * nv) (0, 0)),
+         (j + 1 + (i + 1) * nv, uvs.getD (j + 1 + (i + 1) * nv) (0, 0)), (j + 1 + i * nv, uvs.getD (j + 1 + i * nv) (0, 0))] ∧
+      r.tris.map (·.2) = polygonTriangulate (quadCell nv i j) :=
+  trimCells_cell_untrimmed tt sq trims hnr uvs nu nv i j hi hj h1 h2 h3 h4 hc1 hc2
+
+/-- (ii) for the whole mesh: **if every cell is away from the (non-reversed) trims, the trimmed tessellation IS the
+    untrimmed one** - same faces, same vertex parameters, `fix_numbering` keeps exactly the grid vertices with their ids
+    (the corner vertices every call returns again are recognised as duplicates).  `CellAway`: none of the four offset
+    points of the cell's four corners and neither of its two triangle centres lies in a trim. -/
+theorem trim_all_cells_away_is_untrimmed_mesh (tt : TrimTol K) (sq : K → K) (trims : List (Trim K))
+    (hnr : ∀ tr ∈ trims, tr.reversed = false) (su sv s : ℕ) (hu : 2 ≤ gridCount su s) (hv : 2 ≤ gridCount sv s)
+    (haway : ∀ i j, i < gridCount su s - 1 → j < gridCount sv s - 1 →
+      CellAway tt.tols trims ((meshVertices (K := K) su sv s).map (·.1)) (gridCount sv s) (i, j)) :
+    (makeTrimMesh tt sq trims su sv s).faces = (makeTriangleMesh (K := K) su sv s).faces ∧
+    (makeTrimMesh tt sq trims su sv s).uv = (makeTriangleMesh (K := K) su sv s).uv ∧
+    (makeTrimMesh tt sq trims su sv s).old = List.range (gridCount su s * gridCount sv s) :=
+  makeTrimMesh_all_away tt sq trims hnr su sv s hu hv haway
+
+/-- Without trims `TrimTessellate` produces the mesh of `TriangularTessellate`. -/
+theorem trim_no_trims_is_untrimmed (tt : TrimTol K) (sq : K → K) (su sv s : ℕ) (hu : 2 ≤ gridCount su s)
+    (hv : 2 ≤ gridCount sv s) :
+    (makeTrimMesh tt sq [] su sv s).faces = (makeTriangleMesh (K := K) su sv s).faces ∧
+    (makeTrimMesh tt sq [] su sv s).uv = (makeTriangleMesh (K := K) su sv s).uv ∧
+    (makeTrimMesh tt sq [] su sv s).old = List.range (gridCount su s * gridCount sv s) :=
+  makeTrimMesh_no_trims tt sq su sv s hu hv
+
+/-- **The winding counter of `wn_poly` does not change along a segment that no polygon edge crosses**: for a closed
+    polyline (`V₀ … Vₙ = V₀`, any shape, self-intersections allowed) and two points `p`, `q` such that no edge `a → b`
+    passes the segment-intersection test `Crosses a b p q` (`is_left(a,b,p)·is_left(a,b,q) ≤ 0` and
+    `is_left(p,q,a)·is_left(p,q,b) ≤ 0`: the edge meets the segment or is collinear with it), the counters are equal. -/
+theorem winding_constant_without_crossing (p q : K × K) (poly : List (K × K)) (hclosed : poly.head? = poly.getLast?)
+    (h : ∀ e ∈ poly.zip poly.tail, ¬ Crosses e.1 e.2 p q) : wnNum p poly = wnNum q poly ∧ wnPoly p poly = wnPoly q poly :=
+  ⟨wnNum_eq_of_no_crossing p q poly hclosed h, wnPoly_eq_of_no_crossing p q poly hclosed h⟩
+
+/-- A crossing in the sense of the test `Crosses` that is not a collinear configuration IS a common point of the two
+    segments: `p + t (q - p) = a + s (b - a)` with `s, t ∈ [0, 1]`. -/
+theorem crossing_is_common_point (a b p q : K × K) (hc : Crosses a b p q) (hn : ¬ AllCollinear a b p q) :
+    ∃ t, 0 ≤ t ∧ t ≤ 1 ∧ ∃ s, 0 ≤ s ∧ s ≤ 1 ∧
+      p.1 + t * (q.1 - p.1) = a.1 + s * (b.1 - a.1) ∧ p.2 + t * (q.2 - p.2) = a.2 + s * (b.2 - a.2) :=
+  crosses_common_point a b p q hc hn
+
+/-- **`wn_poly` is constant on a box that the polygon stays out of**: for a closed polyline none of whose edges has a
+    point in the closed box `[lo.1, hi.1] × [lo.2, hi.2]`, all points of the box have the same winding counter. -/
+theorem winding_constant_on_box_polygon_avoids (lo hi p q : K × K) (hp : InBox lo hi p) (hq : InBox lo hi q)
+    (poly : List (K × K)) (hclosed : poly.head? = poly.getLast?)
+    (h : ∀ e ∈ poly.zip poly.tail, SegmentAvoidsBox lo hi e.1 e.2) :
+    wnNum p poly = wnNum q poly ∧ wnPoly p poly = wnPoly q poly :=
+  ⟨wnNum_eq_of_avoids_box lo hi p q hp hq poly hclosed h, wnPoly_eq_of_avoids_box lo hi p q hp hq poly hclosed h⟩
+
+/-- (iv), geometric form, for the grid of `make_triangle_mesh` itself.  **A sampling cell that no trim polyline enters is
+    either omitted or emitted exactly as in the untrimmed tessellation, according to where it lies.**  Trims:
+    non-reversed closed polylines; cell `(i, j)` is `[i·u_jump, (i+1)·u_jump] × [j·v_jump, (j+1)·v_jump]`; if no point of
+    any trim edge lies in this rectangle enlarged by `tol²` on every side, then for every point `x` of the enlarged
+    rectangle: `x` in some trim ⇒ the call for this cell returns nothing; `x` in no trim ⇒ it returns exactly the two
+    triangles `polygon_triangulate(v1, v2, v3, v4)` of the untrimmed tessellation.  Consequently the triangles of the
+    trimmed mesh differ from "untrimmed triangles of the cells outside the trims" only in cells that a trim polyline
+    enters: the omitted region matches the trimmed region to within one sampling cell. -/
+theorem trim_cell_no_trim_enters_is_whole (tt : TrimTol K) (ht : 0 ≤ tt.tols) (sq : K → K) (trims : List (Trim K))
+    (hnr : ∀ tr ∈ trims, tr.reversed = false) (hcl : ∀ tr ∈ trims, tr.pts.head? = tr.pts.getLast?)
+    (su sv s : ℕ) (hs : 0 < s) (hsu : 2 ≤ su) (hsv : 2 ≤ sv) (i j : ℕ) (hi : i < gridCount su s - 1) (hj : j < gridCount sv s - 1)
+    (hav : TrimsAvoidBox trims ((i : K) * meshJump su s - tt.tols, (j : K) * meshJump sv s - tt.tols)
+      (((i + 1 : ℕ) : K) * meshJump su s + tt.tols, ((j + 1 : ℕ) : K) * meshJump sv s + tt.tols))
+    (x : K × K) (hx : InBox ((i : K) * meshJump su s - tt.tols, (j : K) * meshJump sv s - tt.tols)
+      (((i + 1 : ℕ) : K) * meshJump su s + tt.tols, ((j + 1 : ℕ) : K) * meshJump sv s + tt.tols) x) :
+    ∃ r, (trimCells tt sq trims ((meshVertices (K := K) su sv s).map (·.1)) (gridCount su s) (gridCount sv s)).trace[
+        j + i * (gridCount sv s - 1)]? = some r ∧
+      (InSomeTrim trims x → r.verts = [] ∧ r.tris = []) ∧
+      (¬ InSomeTrim trims x → r.tris.map (·.2) = polygonTriangulate (quadCell (gridCount sv s) i j)) :=
+  makeTrimMesh_cell_untouched tt ht sq trims hnr hcl su sv s hs hsu hsv i j hi hj hav x hx
+
+/-- (iv) **The omitted region matches the trimmed region to within one sampling cell.**  Trims: non-reversed closed
+    polylines.  The sample points of cell `(i, j)` are the four offset points `uv ± (tol², tol²)` of each of its four
+    corners and the centres of its two candidate triangles (`cellSamples`, 18 points, all within `tol²` of the cell).
+    If NO trim edge crosses (test `Crosses`) any of the segments joining the first of these points, `p0`, to the others,
+    the cell is treated as a whole, exactly "keep iff outside": if `p0` lies in a trim the cell is omitted; if it lies in
+    no trim the cell is emitted as the two triangles of the untrimmed tessellation.  So the trimmed mesh can differ from
+    "drop the cells inside, keep the cells outside unchanged" only in cells whose (tol²-enlarged) extent is crossed by a
+    trim polyline - `trim_differs_only_where_a_trim_crosses`. -/
+theorem trim_within_one_cell (tt : TrimTol K) (sq : K → K) (trims : List (Trim K)) (hnr : ∀ tr ∈ trims, tr.reversed = false)
+    (hcl : ∀ tr ∈ trims, tr.pts.head? = tr.pts.getLast?) (uvs : List (K × K)) (nu nv i j : ℕ)
+    (hi : i < nu - 1) (hj : j < nv - 1)
+    (hno : ∀ s ∈ cellSamples tt.tols (uvs.getD (j + i * nv) (0, 0)) (uvs.getD (j + (i + 1) * nv) (0, 0))
+        (uvs.getD (j + 1 + (i + 1) * nv) (0, 0)) (uvs.getD (j + 1 + i * nv) (0, 0)),
+      NoTrimCrossing trims (cornerPoint tt.tols 0 (uvs.getD (j + i * nv) (0, 0)) false) s) :
+    ∃ r, (trimCells tt sq trims uvs nu nv).trace[j + i * (nv - 1)]? = some r ∧
+      (InSomeTrim trims (cornerPoint tt.tols 0 (uvs.getD (j + i * nv) (0, 0)) false) → r.verts = [] ∧ r.tris = []) ∧
+      (¬ InSomeTrim trims (cornerPoint tt.tols 0 (uvs.getD (j + i * nv) (0, 0)) false) →
+        r.tris.map (·.2) = polygonTriangulate (quadCell nv i j)) :=
+  trimCells_cell_whole tt sq trims hnr hcl uvs nu nv i j hi hj hno
+
+/-- (iv), contrapositive: a cell whose result is neither "nothing" nor "the two untrimmed triangles" has a trim edge
+    that crosses a segment between two of its sample points. -/
+theorem trim_differs_only_where_a_trim_crosses (tt : TrimTol K) (sq : K → K) (trims : List (Trim K))
+    (hnr : ∀ tr ∈ trims, tr.reversed = false) (hcl : ∀ tr ∈ trims, tr.pts.head? = tr.pts.getLast?)
+    (uvs : List (K × K)) (nu nv i j : ℕ) (hi : i < nu - 1) (hj : j < nv - 1) (r : TrimCellResult K)
+    (hr : (trimCells tt sq trims uvs nu nv).trace[j + i * (nv - 1)]? = some r)
+    (hdiff : r.tris ≠ [] ∧ r.tris.map (·.2) ≠ polygonTriangulate (quadCell nv i j)) :
+    ∃ s ∈ cellSamples tt.tols (uvs.getD (j + i * nv) (0, 0)) (uvs.getD (j + (i + 1) * nv) (0, 0))
+        (uvs.getD (j + 1 + (i + 1) * nv) (0, 0)) (uvs.getD (j + 1 + i * nv) (0, 0)),
+      ∃ tr ∈ trims, ∃ e ∈ polySegments tr.pts,
+        Crosses e.1 e.2 (cornerPoint tt.tols 0 (uvs.getD (j + i * nv) (0, 0)) false) s := by
+  by_contra hc
+  have hno : ∀ s ∈ cellSamples tt.tols (uvs.getD (j + i * nv) (0, 0)) (uvs.getD (j + (i + 1) * nv) (0, 0))
+        (uvs.getD (j + 1 + (i + 1) * nv) (0, 0)) (uvs.getD (j + 1 + i * nv) (0, 0)),
+      NoTrimCrossing trims (cornerPoint tt.tols 0 (uvs.getD (j + i * nv) (0, 0)) false) s := by
+    intro s hs tr htr e he hx
+    exact hc ⟨s, hs, tr, htr, e, he, hx⟩
+  obtain ⟨r', hr', hin, hout⟩ := trim_within_one_cell tt sq trims hnr hcl uvs nu nv i j hi hj hno
+  rw [hr] at hr'
+  cases hr'
+  by_cases hp : InSomeTrim trims (cornerPoint tt.tols 0 (uvs.getD (j + i * nv) (0, 0)) false)
+  · exact hdiff.1 (hin hp).2
+  · exact hdiff.2 (hout hp)
+
+/-! non-vacuity: a 3 × 3-cell grid (sample size 4 × 4, parameters multiples of 1/3) with the triangular trim
+    `(1/6,1/6), (5/6,1/4), (1/4,5/6)`, resp. the triangle `(-1/10,-1/10), (9/10,-1/10), (-1/10,9/10)` that cuts off a
+    corner of the domain; `tol = 10⁻⁷`, exact square roots -/
+
+/-- the doubles of the routine, rounded to decimal fractions for the examples -/
+def exTol : TrimTol ℚ := { tol := 1 / 10000000, tols := 1 / 100000000000000, hi := 10000001 / 10000000, rtol := 1 / 17592186044416 }
+/-- the square roots needed for the first cell (exact) -/
+def exSq : ℚ → ℚ := fun x => if x = 1 / 1296 then 1 / 36 else if x = 49 / 1296 then 7 / 36 else if x = 4 / 81 then 2 / 9 else 0
+def exTrim : Trim ℚ := { pts := [(1/6, 1/6), (5/6, 1/4), (1/4, 5/6), (1/6, 1/6)], reversed := false }
+def exTrimCorner : Trim ℚ := { pts := [(-1/10, -1/10), (9/10, -1/10), (-1/10, 9/10), (-1/10, -1/10)], reversed := false }
+def exUV : List (ℚ × ℚ) := (meshVertices (K := ℚ) 4 4 1).map (·.1)
+
+/-- a cell the trim cuts through (cell (0,0): corner `(1/3,1/3)` is inside the triangle): two new vertices `16`, `17` on
+    the edges `v2→v3` and `v3→v4`, the fan `(0,4,16), (0,16,17), (0,17,1)`, of which the middle triangle is dropped
+    because its centre is inside the trim -/
+example : let r := trimCell exTol exSq [exTrim] ⟨0, (0, 0), {}⟩ ⟨4, (1/3, 0), {}⟩ ⟨5, (1/3, 1/3), {}⟩ ⟨1, (0, 1/3), {}⟩ 16 0
+    r.verts = [(0, (0, 0)), (4, (1/3, 0)), (16, (1/3, 3/16)), (17, (3/16, 1/3)), (1, (0, 1/3))] ∧
+    r.tris = [(0, [0, 4, 16]), (2, [0, 17, 1])] ∧
+    r.flags = [{}, {}, { inside := true, trim := true }, {}] := by decide +kernel
+
+/-- the hypotheses of `trim_grid_cell_untrimmed` / `trim_within_one_cell` hold for cell (2,2) (the trim stays away
+    from it): no offset point of its corners and no centre in the trim, no trim edge crosses a sample segment -/
+example : exUV.getD 10 (0, 0) = (2/3, 2/3) ∧ exUV.getD 15 (0, 0) = (1, 1) ∧ quadCell 4 2 2 = [10, 14, 15, 11] ∧
+    (∀ k ∈ [10, 14, 15, 11], ∀ s ∈ offsetPoints exTol.tols (exUV.getD k (0, 0)), wnPoly s exTrim.pts = false) ∧
+    wnPoly (triCenterUV (exUV.getD 10 (0, 0)) (exUV.getD 14 (0, 0)) (exUV.getD 15 (0, 0))) exTrim.pts = false ∧
+    wnPoly (triCenterUV (exUV.getD 10 (0, 0)) (exUV.getD 15 (0, 0)) (exUV.getD 11 (0, 0))) exTrim.pts = false ∧
+    (∀ s ∈ cellSamples exTol.tols (exUV.getD 10 (0, 0)) (exUV.getD 14 (0, 0)) (exUV.getD 15 (0, 0)) (exUV.getD 11 (0, 0)),
+      ∀ e ∈ polySegments exTrim.pts, ¬ Crosses e.1 e.2 (cornerPoint exTol.tols 0 (exUV.getD 10 (0, 0)) false) s) ∧
+    exTrim.pts.head? = exTrim.pts.getLast? := by decide +kernel
+
+/-- the hypotheses of `trim_grid_cell_omitted` / `trim_within_one_cell` (inside branch) hold for cell (0,0) and the
+    corner-cutting triangle: the tested offset point of each of its corners is in the trim, and no trim edge crosses a
+    sample segment -/
+example : wnPoly (cornerPoint exTol.tols 0 (exUV.getD 0 (0, 0)) false) exTrimCorner.pts = true ∧
+    wnPoly (cornerPoint exTol.tols 1 (exUV.getD 4 (0, 0)) false) exTrimCorner.pts = true ∧
+    wnPoly (cornerPoint exTol.tols 2 (exUV.getD 5 (0, 0)) false) exTrimCorner.pts = true ∧
+    wnPoly (cornerPoint exTol.tols 3 (exUV.getD 1 (0, 0)) false) exTrimCorner.pts = true ∧
+    (∀ s ∈ cellSamples exTol.tols (exUV.getD 0 (0, 0)) (exUV.getD 4 (0, 0)) (exUV.getD 5 (0, 0)) (exUV.getD 1 (0, 0)),
+      ∀ e ∈ polySegments exTrimCorner.pts, ¬ Crosses e.1 e.2 (cornerPoint exTol.tols 0 (exUV.getD 0 (0, 0)) false) s) := by
+  decide +kernel
+
+/-- the whole loop on that grid with the corner-cutting triangle: nine calls; cell (0,0) returns nothing, cell (2,2) its
+    two untrimmed triangles, cell (0,1) (cut by the trim) one triangle with two new vertices -/
+example : let st := trimCells exTol (fun x => if x = 1 / 9 then 1 / 3 else 0) [exTrimCorner] exUV 4 4
+    st.trace.length = 9 ∧ (st.trace.map (·.tris.length)) = [0, 1, 3, 1, 3, 2, 3, 2, 2] ∧
+    (st.trace.getD 8 ⟨[], [], []⟩).tris.map (·.2) = polygonTriangulate (quadCell 4 2 2) ∧
+    (st.trace.getD 1 ⟨[], [], []⟩).verts = [(16, (1/3, 7/15)), (6, (1/3, 2/3)), (17, (2/15, 2/3))] := by decide +kernel
+
+/-- `trim_all_cells_away_is_untrimmed_mesh` is not vacuous: a small triangular trim strictly inside the open lower
+    triangle of cell (0,0) touches none of the 18 sample points of any cell of the 2 × 2-cell grid (sample size 3 × 3),
+    yet it is a proper trim (the point (3/10, 1/20) is inside it) -/
+example : let tr : Trim ℚ := { pts := [(1/4, 1/40), (2/5, 1/20), (1/4, 1/10), (1/4, 1/40)], reversed := false }
+    wnPoly ((3/10 : ℚ), (1/20 : ℚ)) tr.pts = true ∧
+    ∀ i ∈ [0, 1], ∀ j ∈ [0, 1],
+      ∀ s ∈ cellSamples exTol.tols (((meshVertices (K := ℚ) 3 3 1).map (·.1)).getD (j + i * 3) (0, 0))
+          (((meshVertices (K := ℚ) 3 3 1).map (·.1)).getD (j + (i + 1) * 3) (0, 0))
+          (((meshVertices (K := ℚ) 3 3 1).map (·.1)).getD (j + 1 + (i + 1) * 3) (0, 0))
+          (((meshVertices (K := ℚ) 3 3 1).map (·.1)).getD (j + 1 + i * 3) (0, 0)), wnPoly s tr.pts = false := by
+  decide +kernel
+
+/-- the hypothesis `TrimsAvoidBox` of `trim_cell_no_trim_enters_is_whole` holds for cell (2,2) = `[2/3,1]²` of the
+    3 × 3-cell grid and the triangular trim (every point of the triangle's edges has `u + v ≤ 13/12`, every point of the
+    enlarged cell has `u + v ≥ 4/3 - 2·10⁻¹⁴`), and the cell corner (2/3, 2/3) is a point of the enlarged cell -/
+example : TrimsAvoidBox [exTrim] (((2 : ℕ) : ℚ) * meshJump 4 1 - exTol.tols, ((2 : ℕ) : ℚ) * meshJump 4 1 - exTol.tols)
+      (((2 + 1 : ℕ) : ℚ) * meshJump 4 1 + exTol.tols, ((2 + 1 : ℕ) : ℚ) * meshJump 4 1 + exTol.tols) ∧
+    InBox (((2 : ℕ) : ℚ) * meshJump 4 1 - exTol.tols, ((2 : ℕ) : ℚ) * meshJump 4 1 - exTol.tols)
+      (((2 + 1 : ℕ) : ℚ) * meshJump 4 1 + exTol.tols, ((2 + 1 : ℕ) : ℚ) * meshJump 4 1 + exTol.tols) ((2/3 : ℚ), (2/3 : ℚ)) := by
+  have hj : meshJump (K := ℚ) 4 1 = 1 / 3 := by norm_num [meshJump]
+  constructor
+  · intro tr htr e he s hs0 hs1 hb
+    simp only [List.mem_singleton] at htr
+    subst htr
+    have hcases : e = ((1/6, 1/6), (5/6, 1/4)) ∨ e = ((5/6, 1/4), (1/4, 5/6)) ∨ e = ((1/4, 5/6), (1/6, 1/6)) := by
+      simpa [polySegments, exTrim] using he
+    obtain ⟨h1, _, h3, _⟩ := hb
+    rw [hj] at h1 h3
+    simp only [exTol] at h1 h3
+    rcases hcases with rfl | rfl | rfl <;> norm_num at h1 h3 <;> linarith
+  · rw [hj]; simp only [InBox, exTol]; norm_num
+
+end trimmed
 
 end C15
